@@ -27,3 +27,50 @@ package version
 //@   loop 1 invariant calls(s.cache.GetReader) == old(calls(s.cache.GetReader)) + rangeindex + 1
 //@   loop 1 invariant forall(i, 0, len(files), files[i] != nil)
 //@ end
+
+//@ # ---- snapshots keep their version alive (C02) ---------------------------------------------------------------
+//@ # a version is pinned (Retain) in the same critical section in which it is read as the current one, so that
+//@ # appendVersion/removeVersion cannot drop it in between
+//@ lock familyVersion.mutex protects current activeVersions
+//@ stable version.fv
+//@ func Version.Retain
+//@   norefine
+//@   requires[pinned_while_the_family_version_is_locked] typeis(self, "*version") && locked(cast(cast(self, "*version").fv, "*familyVersion").mutex)
+//@   modifies cast(self, "*version").ref.val
+//@   ensures cast(self, "*version").ref.val == old(cast(self, "*version").ref.val) + 1
+//@ end
+//@ func StoreVersionSet.getCache
+//@   modifies nothing
+//@ end
+//@ func familyVersion.GetSnapshot
+//@   prop C02
+//@   requires fv.versionSet != nil && fv.current != nil && typeis(fv.current, "*version") && cast(fv.current, "*version").fv == fv
+//@   modifies any(*version).ref.val
+//@   ensures[the_snapshot_pins_the_version_it_reads] result != nil && cast(result, "*snapshot").version == old(fv.current) && cast(old(fv.current), "*version").ref.val == old(cast(fv.current, "*version").ref.val) + 1
+//@   ensures[lock_released] !locked(fv.mutex)
+//@ end
+//@ func Version.Release
+//@   norefine
+//@   modifies any(*version).ref.val, any(*familyVersion).activeVersions[*]
+//@ end
+//@ func github.com/lindb/lindb/kv/table.Cache.ReleaseReaders
+//@   modifies nothing
+//@ end
+//@ func snapshot.Close
+//@   prop C02
+//@   requires s.version != nil && s.cache != nil
+//@   modifies s.closed.val, any(*version).ref.val, any(*familyVersion).activeVersions[*]
+//@   ensures[a_snapshot_releases_its_version_exactly_once] (old(s.closed.val) ==> calls(s.version.Release) == old(calls(s.version.Release))) && (!old(s.closed.val) ==> calls(s.version.Release) == old(calls(s.version.Release)) + 1)
+//@   ensures[closed_afterwards] s.closed.val
+//@ end
+//@ # a version leaves the active set only when nothing references it and it is not the current one
+//@ func familyVersion.removeVersion
+//@   prop C02
+//@   requires fv.activeVersions != nil && v != nil
+//@   modifies fv.activeVersions[*]
+//@   ensures[the_current_version_is_never_removed] v == fv.current ==> fv.activeVersions == old(fv.activeVersions)
+//@   ensures[lock_released] !locked(fv.mutex)
+//@ end
+//@ func Version.ID
+//@   modifies nothing
+//@ end
